@@ -76,6 +76,8 @@ def main():
             rc, out = sh([str(V / 'check'), c, '--tier', tier], cwd=V, env=env)
             lines = [l for l in out.splitlines() if l.startswith(('VIOLATION', 'KNOWN-FINDING'))]
             meta['checks'][c] = dict(exit=rc, lines=lines[:6], wall_s=round(time.time() - t0, 1), tier=tier)
+            if rc not in (0, 1):
+                meta['checks'][c]['tail'] = out[-1500:]
             meta['ran'].append(f'MAHOTAS_REPO=<patched tree> ./check {c} --tier {tier}: exit {rc}')
         meta['detected_by'] = [c for c, r in meta['checks'].items() if r['exit'] == 1]
     except SystemExit:
